@@ -328,6 +328,7 @@ DateData Date::calc(double t)
 		memset(&date, 0, sizeof(date));
 		return date;
 	}
+	t += 0.0005; // resolve to the millisecond first, so that date, time and week day belong to the same instant
 	date.year = yearFromTime(t);
 	int leap = isLeapYear(t) ? 1 : 0;
 	int yd = (int)dayWithinYear(t, date.year);
@@ -343,7 +344,6 @@ DateData Date::calc(double t)
 	}
 	date.day = yd - month_days[leap][date.month] + 1;
 
-	t += 0.0005;
 	double dt = ((t / 86400.0) - floor(t / 86400.0));
 	int    h = (int)floor(24 * dt);
 	int    m = (int)floor((24 * dt - h) * 60);
